@@ -101,8 +101,9 @@ impl ClientHello {
 
 impl Default for ClientHello {
     fn default() -> Self {
-        const CAPABILITIES: &[Capability] =
-            &[Capability::Base(Base::V1_0), Capability::Base(Base::V1_1)];
+        // only :base:1.0 is advertised: :base:1.1 obliges both peers to use the chunked framing
+        // of RFC 6242 section 4.2, which is not implemented by any transport.
+        const CAPABILITIES: &[Capability] = &[Capability::Base(Base::V1_0)];
         Self::new(CAPABILITIES)
     }
 }
